@@ -6,7 +6,7 @@ import os
 VERIF = os.path.dirname(os.path.dirname(os.path.abspath(__file__)))
 
 TRUSTED = ('Trusted base: /verif/contracts/prelude.rs (assumed contracts of std::io::{Read,BufRead,Write}, byteorder and crc shims, '
-           'Cursor/Vec/slice methods, src_eq axioms), extraction rewrites R0-R21 (DESIGN.md A.2), mem::axiom_alloc_held (allocation justified by data held), 64-bit usize, A-CNT counter-overflow '
+           'Cursor/Vec/slice methods, src_eq axioms), extraction rewrites R0-R22 (DESIGN.md A.2), mem::axiom_alloc_held (allocation justified by data held), 64-bit usize, A-CNT counter-overflow '
            'assume sites, Verus 0.2026.09.13 + Z3. Functions not under contract are external_body and listed in the evidence file.')
 
 # property -> (claimed?, level text, technique, design ref, n/a reason)
